@@ -240,15 +240,13 @@ Fixpoint join_sp (l : list str) : str :=
 (* int(format) for a run of ASCII digits; '' does not occur where int() is called *)
 Definition int_of (d : str) : N := fold_left (fun a c => (a * 10 + Z.to_N (c - 48))%N) d 0%N.
 
-Fixpoint uint_digits (u : Decimal.uint) : str :=
-  match u with
-  | Decimal.Nil => []
-  | Decimal.D0 r => 48 :: uint_digits r | Decimal.D1 r => 49 :: uint_digits r | Decimal.D2 r => 50 :: uint_digits r
-  | Decimal.D3 r => 51 :: uint_digits r | Decimal.D4 r => 52 :: uint_digits r | Decimal.D5 r => 53 :: uint_digits r
-  | Decimal.D6 r => 54 :: uint_digits r | Decimal.D7 r => 55 :: uint_digits r | Decimal.D8 r => 56 :: uint_digits r
-  | Decimal.D9 r => 57 :: uint_digits r
+(* '%d' % num, most significant digit first; the fuel (num + 1 divisions by ten) always suffices, see int_of_dec *)
+Fixpoint dec_fuel (fuel : nat) (n : N) : str :=
+  match fuel with
+  | O => []
+  | S f => if (n <? 10)%N then [48 + Z.of_N n] else dec_fuel f (n / 10)%N ++ [48 + Z.of_N (n mod 10)%N]
   end.
-Definition dec (n : N) : str := uint_digits (N.to_uint n).
+Definition dec (n : N) : str := dec_fuel (S (N.to_nat n)) n.
 (* ('%%.%sd' % format) % num : at least int(format) digits, zero padded; '%.d' = no padding *)
 Definition fmt_num (format : str) (n : N) : str :=
   let d := dec n in repeat c_zero (N.to_nat (int_of format) - length d) ++ d.
